@@ -258,8 +258,8 @@ fn main() {
     let mm = ctx.n(40, 120) as i64;
     let all_crt = (1..=mm).flat_map(move |m1| (1..=mm).flat_map(move |m2| (0..m1).flat_map(move |a1| (0..m2).map(move |a2| Case::Crt { a1, m1, a2, m2 }))));
     ctx.exhaustive("crt-small-moduli", "gcd-case", &format!("all moduli 1..={mm} with all reduced residues"), true, all_crt, run_case);
-    ctx.prop_split("egcd-generated", "gcd-case", ctx.n(50_000, 2_000_000), ctx.parts(), lin_case().boxed(), run_case);
-    ctx.prop_split("crt-generated", "gcd-case", ctx.n(50_000, 2_000_000), ctx.parts(), crt_case().boxed(), run_case);
-    ctx.prop("gcd-lcm-all-integer-types", "gcd-case", ctx.n(60_000, 1_000_000), typed_case(), run_case);
+    ctx.prop_split("egcd-generated", "gcd-case", ctx.n(50_000, 12_000_000), ctx.parts(), lin_case().boxed(), run_case);
+    ctx.prop_split("crt-generated", "gcd-case", ctx.n(50_000, 12_000_000), ctx.parts(), crt_case().boxed(), run_case);
+    ctx.prop("gcd-lcm-all-integer-types", "gcd-case", ctx.n(60_000, 8_000_000), typed_case(), run_case);
     ctx.finish();
 }
